@@ -17,7 +17,7 @@ RULE = ('directions: boundary grid (every 5 deg) and seeded-random points with h
         'both projection paths. distinct_nontrivial = distinct inputs (quantised to 1e-12) that reached a monitor.')
 ASSUMPTIONS = ['float32 accuracy bound of the statement taken as 1e-6 rad (measured worst values are in the evidence)',
                'V2 reference: light plane through the rotation axis direction tilted by 30 deg, n(a).d = 0']
-REQUIRED = ['mon.solver_poses_with_exactly_zero_translation', 'mon.poses_from_quaternions_not_of_unit_length', 'mon.vector_answers_modified_by_the_caller', 'mon.list_helpers_asked_again_after_the_list_changed', 'mon.v1_v2_v1', 'mon.v1_cart_v1', 'mon.v1_proj_v1', 'mon.v2_plane_reference', 'mon.pose_inverse',
+REQUIRED = ['mon.poses_whose_source_arrays_were_changed_afterwards', 'mon.solver_poses_with_exactly_zero_translation', 'mon.poses_from_quaternions_not_of_unit_length', 'mon.vector_answers_modified_by_the_caller', 'mon.list_helpers_asked_again_after_the_list_changed', 'mon.v1_v2_v1', 'mon.v1_cart_v1', 'mon.v1_proj_v1', 'mon.v2_plane_reference', 'mon.pose_inverse',
             'mon.pose_associativity', 'mon.pose_views', 'mon.solver_projection', 'mon.solver_zero_rotation', 'mon.ippe_axes', 'mon.pose_laws_after_history',
             'mon.solver_pairs_with_crazyflie_behind_the_base_station', 'mon.solver_non_canonical_rotation_vectors']
 
@@ -246,6 +246,19 @@ def run_poses(desc, ctx):
         worst = max(worst, e8, e9, e10, e11)
         if max(e8, e9, e10, e11) > 1e-9:
             ctx.violate('pose:views-disagree-or-not-orthonormal', {'errors': [e8, e9, e10, e11]})
+        # a pose is a value: the arrays it was built from belong to the caller, who may fill them again (a scratch array
+        # per decoded record, `position += step` in a loop) without changing poses already built
+        Rsrc, tsrc = np.array(Ra, dtype=float), np.array(ta, dtype=float)
+        P5 = Pose(Rsrc, tsrc)
+        P6 = Pose.from_rot_vec(np.array(A.rot_vec, dtype=float), tsrc)
+        want5 = Ra @ x + ta
+        Rsrc[:] = np.eye(3)[[1, 2, 0]]
+        tsrc += 1.0
+        ctx.count('mon.poses_whose_source_arrays_were_changed_afterwards')
+        e13 = float(np.linalg.norm(P5.rotate_translate(x) - want5) + np.linalg.norm(P6.rotate_translate(x) - want5) +
+                    np.linalg.norm(P5.rot_matrix - Ra) + np.linalg.norm(P5.translation - ta))
+        if e13 > 1e-9 * max(1.0, float(np.linalg.norm(want5))):
+            ctx.violate('pose:changed-when-the-arrays-it-was-built-from-were-written-to', {'error': e13})
         # a quaternion need not be handed over at unit length (a sum, an average, the shorthand (0, 0, 1, 1) for a
         # quarter turn): it denotes the same rotation, and the pose built from it is a rigid motion all the same
         kq = rnd.choice((2.0, 0.5, -3.0, rnd.uniform(0.05, 20.0)))
